@@ -1,7 +1,18 @@
 //! C12 — the BER chain hands the decoder correctly ordered, correctly scaled LLRs.
+//!
+//! A simulator-owned "genie" decoder sits inside every simulated worker, records each LLR
+//! vector, checks its structure and returns the codeword completed from the transmitted
+//! signs (with scripted single-bit flips), so that the collector's bit-error count reveals
+//! whether the word's prefix is the worker's message. The channel RNG is the simulator's
+//! seeded entropy stream, so the noise statistics replay exactly.
 
 use crate::bersim::*;
+use crate::c13::{base_cfg, divisors, gen_chain, FaultClass};
+use crate::campaign::*;
+use crate::common::*;
 use crate::gf2::*;
+use dstsim::{RunResult, Stream, keyed};
+use serde_json::json;
 
 /// Complete the transmitted signs to a codeword: punctured positions carry no sign, so they
 /// are solved for with the harness's own elimination. Returns the word and whether the
@@ -32,4 +43,648 @@ pub fn complete_codeword(cfg: &BerCfg, llrs: &[f64]) -> Option<(Vec<u8>, bool)> 
         c[j] = x[jj];
     }
     Some((c, free > 0))
+}
+
+// ---------------------------------------------------------------------------
+// the harness's own chain model
+// ---------------------------------------------------------------------------
+
+pub fn bits_per_symbol(cfg: &BerCfg) -> f64 {
+    if cfg.psk8 { 3.0 } else { 1.0 }
+}
+
+pub fn expected_sigma(cfg: &BerCfg, ebn0_db: f32) -> f64 {
+    let l = cfg.tx_len().unwrap() as f64;
+    let rate = cfg.k() as f64 / l;
+    let ebn0 = 10f64.powf(0.1 * f64::from(ebn0_db));
+    (0.5 / (rate * bits_per_symbol(cfg) * ebn0)).sqrt()
+}
+
+/// Eb/N0 (dB) at which every sample is at least 9 sigma (+3 dB margin) from a decision boundary.
+pub fn safe_ebn0_db(cfg: &BerCfg) -> f32 {
+    let l = cfg.tx_len().unwrap() as f64;
+    let rate = cfg.k() as f64 / l;
+    let esn0_db = if cfg.psk8 { 27.5 } else { 19.1 };
+    (esn0_db - 10.0 * (rate * bits_per_symbol(cfg)).log10()) as f32
+}
+
+/// keep the transmitted blocks, in order
+pub fn own_puncture<T: Copy>(cfg: &BerCfg, v: &[T]) -> Vec<T> {
+    let kept = cfg.kept_mask();
+    v.iter().zip(kept).filter(|(_, k)| *k).map(|(x, _)| *x).collect()
+}
+
+/// DVB-S2 column-write/row-read: out[r*C+c] = in[c*R+r] (columns reversed when backwards)
+pub fn own_interleave<T: Copy>(cfg: &BerCfg, v: &[T]) -> Vec<T> {
+    match cfg.interleaving {
+        None => v.to_vec(),
+        Some(c) => {
+            let cols = c.unsigned_abs();
+            let rows = v.len() / cols;
+            let mut out = Vec::with_capacity(v.len());
+            for r in 0..rows {
+                for cc in 0..cols {
+                    let src_col = if c < 0 { cols - 1 - cc } else { cc };
+                    out.push(v[src_col * rows + r]);
+                }
+            }
+            out
+        }
+    }
+}
+
+const A: f64 = std::f64::consts::FRAC_1_SQRT_2;
+/// DVB-S2 Gray 8PSK: (b0,b1,b2) -> point
+pub fn psk8_point(b0: u8, b1: u8, b2: u8) -> (f64, f64) {
+    match (b0, b1, b2) {
+        (0, 0, 0) => (A, A),
+        (1, 0, 0) => (0.0, 1.0),
+        (1, 1, 0) => (-A, A),
+        (0, 1, 0) => (-1.0, 0.0),
+        (0, 1, 1) => (-A, -A),
+        (1, 1, 1) => (0.0, -1.0),
+        (1, 0, 1) => (A, -A),
+        _ => (1.0, 0.0),
+    }
+}
+
+fn lse(xs: &[f64]) -> f64 {
+    let m = xs.iter().cloned().fold(f64::NEG_INFINITY, f64::max);
+    m + xs.iter().map(|x| (x - m).exp()).sum::<f64>().ln()
+}
+
+/// posterior LLRs of the three bits for scaled sample (u,v) = r / sigma^2, with Jacobian
+fn psk8_llrs(u: f64, v: f64) -> ([f64; 3], [[f64; 2]; 3]) {
+    let mut pts = Vec::with_capacity(8);
+    for b0 in 0..2u8 {
+        for b1 in 0..2u8 {
+            for b2 in 0..2u8 {
+                let (x, y) = psk8_point(b0, b1, b2);
+                pts.push(([b0, b1, b2], x, y, u * x + v * y));
+            }
+        }
+    }
+    let mut out = [0.0; 3];
+    let mut jac = [[0.0; 2]; 3];
+    for i in 0..3 {
+        let d0: Vec<f64> = pts.iter().filter(|p| p.0[i] == 0).map(|p| p.3).collect();
+        let d1: Vec<f64> = pts.iter().filter(|p| p.0[i] == 1).map(|p| p.3).collect();
+        let (l0, l1) = (lse(&d0), lse(&d1));
+        out[i] = l0 - l1;
+        for p in &pts {
+            let (wgt, sign) = if p.0[i] == 0 { ((p.3 - l0).exp(), 1.0) } else { ((p.3 - l1).exp(), -1.0) };
+            jac[i][0] += sign * wgt * p.1;
+            jac[i][1] += sign * wgt * p.2;
+        }
+    }
+    (out, jac)
+}
+
+/// Invert the 8PSK soft demodulator: find the scaled sample whose posterior LLRs are `b`.
+/// Returns (u, v, residual).
+pub fn psk8_invert(b: [f64; 3]) -> (f64, f64, f64) {
+    // start: direction of the hard-decision point, magnitude from the largest LLR
+    let hd = [u8::from(b[0] <= 0.0), u8::from(b[1] <= 0.0), u8::from(b[2] <= 0.0)];
+    let (x, y) = psk8_point(hd[0], hd[1], hd[2]);
+    let mag = b.iter().map(|t| t.abs()).fold(0.0, f64::max).max(1.0);
+    let (mut u, mut v) = (x * mag, y * mag);
+    let mut res = f64::INFINITY;
+    for _ in 0..60 {
+        let (f, j) = psk8_llrs(u, v);
+        let r = [f[0] - b[0], f[1] - b[1], f[2] - b[2]];
+        res = (r[0] * r[0] + r[1] * r[1] + r[2] * r[2]).sqrt();
+        if res < 1e-9 * (1.0 + mag) {
+            break;
+        }
+        // Gauss-Newton step: (J^T J) d = -J^T r
+        let (mut a11, mut a12, mut a22, mut g1, mut g2) = (0.0, 0.0, 0.0, 0.0, 0.0);
+        for i in 0..3 {
+            a11 += j[i][0] * j[i][0];
+            a12 += j[i][0] * j[i][1];
+            a22 += j[i][1] * j[i][1];
+            g1 += j[i][0] * r[i];
+            g2 += j[i][1] * r[i];
+        }
+        let det = a11 * a22 - a12 * a12;
+        if det.abs() < 1e-300 {
+            break;
+        }
+        let du = -(a22 * g1 - a12 * g2) / det;
+        let dv = -(-a12 * g1 + a11 * g2) / det;
+        // damped step
+        let mut step = 1.0;
+        for _ in 0..30 {
+            let (f2, _) = psk8_llrs(u + step * du, v + step * dv);
+            let r2 = ((f2[0] - b[0]).powi(2) + (f2[1] - b[1]).powi(2) + (f2[2] - b[2]).powi(2)).sqrt();
+            if r2 <= res {
+                break;
+            }
+            step *= 0.5;
+        }
+        u += step * du;
+        v += step * dv;
+    }
+    (u, v, res)
+}
+
+/// Noise samples of one frame (per real dimension: BPSK one value per symbol, 8PSK two),
+/// plus the projection of the received sample on the transmitted symbol (amplitude).
+pub struct FrameNoise {
+    pub noise: Vec<f64>,
+    /// (re, im) pairs for complex channels
+    pub pairs: Vec<(f64, f64)>,
+    pub amp_num: f64,
+    pub amp_den: f64,
+    pub max_residual: f64,
+}
+
+pub fn frame_noise(cfg: &BerCfg, sigma: f64, llrs: &[f64], c: &[u8]) -> FrameNoise {
+    let tx_bits = own_interleave(cfg, &own_puncture(cfg, c));
+    let tx_llrs = own_interleave(cfg, &own_puncture(cfg, llrs));
+    let mut out = FrameNoise { noise: Vec::new(), pairs: Vec::new(), amp_num: 0.0, amp_den: 0.0, max_residual: 0.0 };
+    if cfg.psk8 {
+        for (bits, l) in tx_bits.chunks(3).zip(tx_llrs.chunks(3)) {
+            let (u, v, res) = psk8_invert([l[0], l[1], l[2]]);
+            let (x, y) = (u * sigma * sigma, v * sigma * sigma);
+            let (sx, sy) = psk8_point(bits[0], bits[1], bits[2]);
+            out.noise.push(x - sx);
+            out.noise.push(y - sy);
+            out.pairs.push((x - sx, y - sy));
+            out.amp_num += x * sx + y * sy;
+            out.amp_den += 1.0;
+            let scale = l.iter().map(|t| t.abs()).fold(1.0, f64::max);
+            out.max_residual = out.max_residual.max(res / scale);
+        }
+    } else {
+        for (&b, &l) in tx_bits.iter().zip(tx_llrs.iter()) {
+            let x = -l * sigma * sigma / 2.0;
+            let s = if b == 1 { 1.0 } else { -1.0 };
+            out.noise.push(x - s);
+            out.amp_num += x * s;
+            out.amp_den += 1.0;
+        }
+    }
+    out
+}
+
+// ---------------------------------------------------------------------------
+// structural oracle
+// ---------------------------------------------------------------------------
+
+pub fn oracle_c12(cfg: &BerCfg, obs: &BerObs) -> (Vec<Violation>, OracleStats) {
+    let mut v = Vec::new();
+    let mut st = OracleStats { probes: Counters::default(), frames_total: 0, chain_skipped: false };
+    let out = &obs.outcome;
+    let root = match &out.result {
+        RunResult::Done(r) => r,
+        other => {
+            // termination problems are C13's business
+            st.probes.inc(&format!("not judged: run ended with {}", other.kind()));
+            st.chain_skipped = true;
+            return (v, st);
+        }
+    };
+    if root.build_err.is_some() {
+        st.chain_skipped = true;
+        return (v, st);
+    }
+    let n = cfg.n_cw();
+    let k = cfg.k();
+    let l = cfg.tx_len().unwrap();
+    // reported sizes
+    if let Some((rn, rncw, rk, rrate)) = root.dims {
+        let want_rate = k as f64 / l as f64;
+        if rn != l || rncw != n || rk != k || (rrate - want_rate).abs() > 1e-12 * want_rate {
+            v.push(Violation::new(
+                "dims",
+                format!("reported (n, n_cw, k, rate) = ({}, {}, {}, {}) but the configuration gives ({}, {}, {}, {})", rn, rncw, rk, rrate, l, n, k, want_rate),
+            ));
+        }
+    }
+    let hist = extract_history(cfg, &out.events, root.report_chan);
+    for a in &hist.anomalies {
+        if a.starts_with("wrong-") {
+            v.push(Violation::new("frame-shape", a.clone()));
+        }
+    }
+    let kept = cfg.kept_mask();
+    let mut ambiguous_any = false;
+    for (e, w, j, llrs) in &obs.llrs {
+        st.frames_total += 1;
+        if llrs.len() != n {
+            v.push(Violation::new("frame-shape", format!("frame ({},{},{}) has length {} instead of {}", e, w, j, llrs.len(), n)));
+            continue;
+        }
+        let mut bad_zero = None;
+        for i in 0..n {
+            let x = llrs[i];
+            if x.is_nan() {
+                bad_zero = Some((i, "NaN"));
+            } else if !kept[i] && x != 0.0 {
+                bad_zero = Some((i, "punctured position is not exactly zero"));
+            } else if kept[i] && x == 0.0 {
+                bad_zero = Some((i, "transmitted position carries a zero LLR"));
+            }
+        }
+        if let Some((i, what)) = bad_zero {
+            v.push(Violation::new("puncturing", format!("frame ({},{},{}) position {}: {} (llr {:e})", e, w, j, i, what, llrs[i])));
+            continue;
+        }
+        match complete_codeword(cfg, llrs) {
+            None => {
+                v.push(Violation::new(
+                    "signs",
+                    format!("frame ({},{},{}): the signs at the transmitted positions do not extend to a codeword", e, w, j),
+                ));
+            }
+            Some((c, amb)) => {
+                if amb {
+                    ambiguous_any = true;
+                    st.probes.inc("ambiguous completion");
+                }
+                // per-frame noise plausibility (residual of the 8PSK inversion)
+                let sigma = expected_sigma(cfg, cfg.ebn0s_db[*e]);
+                let fnz = frame_noise(cfg, sigma, llrs, &c);
+                if fnz.max_residual > 1e-6 {
+                    v.push(Violation::new(
+                        "signs",
+                        format!("frame ({},{},{}): LLR triples are not the posteriors of any received 8PSK sample (relative residual {:e}); order within symbols is broken", e, w, j, fnz.max_residual),
+                    ));
+                }
+            }
+        }
+    }
+    // systematic prefix, read off the collector's statistics
+    if ambiguous_any {
+        st.probes.inc("skipped/bit-error accounting (ambiguous completion)");
+    } else if let Some(Ok(stats)) = &root.result {
+        for (e, p) in hist.points.iter().enumerate() {
+            let Some(s) = stats.get(e) else { continue };
+            let mut want = 0u64;
+            let mut want_fe = 0u64;
+            let mut ok = true;
+            for &(wi, seq) in &p.recvs {
+                match p.frames.get(&(wi, seq)) {
+                    Some(&(be, _, _)) => {
+                        want += be;
+                        want_fe += u64::from(be > 0);
+                    }
+                    None => ok = false,
+                }
+            }
+            if ok && (s.ldpc.bit_errors != want || s.ldpc.frame_errors != want_fe) {
+                v.push(Violation::new(
+                    "systematic-prefix",
+                    format!(
+                        "point {}: the decoder returned the completed codeword with {} injected systematic bit flips in {} frames, but the collector counted {} bit errors in {} frames: the first k bits of the word are not the worker's message",
+                        e, want, want_fe, s.ldpc.bit_errors, s.ldpc.frame_errors
+                    ),
+                ));
+            }
+        }
+    }
+    if cfg.puncturing.is_some() {
+        st.probes.inc("punctured configuration");
+    }
+    if cfg.interleaving.is_some() {
+        st.probes.inc("interleaved configuration");
+    }
+    if cfg.psk8 {
+        st.probes.inc("8PSK configuration");
+    }
+    if let Some(p) = &cfg.puncturing {
+        let b = n / p.len();
+        if (0..p.len()).any(|i| !p[i] && i * b < k) {
+            st.probes.inc("information bits punctured");
+        }
+    }
+    (v, st)
+}
+
+pub fn generate(seed: u64, run: u64) -> BerCfg {
+    let mut g = Stream::new(keyed(seed, &[run]), "c12-config");
+    let (k, r) = loop {
+        let n = *g.pick(&[6usize, 8, 9, 10, 12, 12, 15, 16, 18, 18, 20, 24, 24, 30]);
+        let r = 1 + g.below(10.min(n as u64 - 1)) as usize;
+        let k = n - r;
+        if (1..=20).contains(&k) {
+            break (k, r);
+        }
+    };
+    let tail = if g.chance(1, 2) { Tail::Staircase } else { Tail::Invertible };
+    let h = random_code(&mut g, k, r, tail, 1);
+    let mut cfg = base_cfg(&mut g, seed, run, h);
+    cfg.factory = FactoryKind::Genie;
+    cfg.workers = *g.pick(&[1usize, 2, 2, 3, 4]);
+    cfg.max_frame_errors = *g.pick(&[1u64, 2, 3, 5, 8]);
+    cfg.max_iterations = 5;
+    cfg.reporter_interval_ns = None;
+    let keep_sys = g.chance(1, 2);
+    for _ in 0..20 {
+        gen_chain(&mut g, &mut cfg, keep_sys, FaultClass::None);
+        if !cfg.stage_error() && !cfg.stage_panic() {
+            break;
+        }
+    }
+    let base = safe_ebn0_db(&cfg);
+    let np = *g.pick(&[1usize, 1, 2]);
+    cfg.ebn0s_db = (0..np).map(|i| base + 0.75 * i as f32).collect();
+    cfg
+}
+
+// ---------------------------------------------------------------------------
+// calibration: noise statistics
+// ---------------------------------------------------------------------------
+
+pub fn calibration_cfgs(seed: u64, big: bool) -> Vec<BerCfg> {
+    let mut out = Vec::new();
+    // (n_cw, r, psk8, pattern, interleaving)
+    let specs: Vec<(usize, usize, bool, Option<Vec<bool>>, Option<isize>)> = vec![
+        (60, 20, false, None, None),
+        (60, 24, false, Some(vec![true, true, true, true, false]), Some(6)),
+        (60, 30, false, Some(vec![true, true, false, true, false, true]), Some(-5)),
+        (60, 20, true, None, None),
+        (72, 24, true, Some(vec![true, true, true, false]), Some(3)),
+        (72, 36, true, Some(vec![true, true, true, true, false, true]), Some(-6)),
+    ];
+    for (i, (n, r, psk8, pat, il)) in specs.into_iter().enumerate() {
+        let mut g = Stream::new(keyed(seed, &[i as u64]), "c12-calibration");
+        let k = n - r;
+        let tail = if i % 2 == 0 { Tail::Staircase } else { Tail::Invertible };
+        let h = random_code(&mut g, k, r, tail, 2);
+        let mut cfg = base_cfg(&mut g, seed, 1_000_000 + i as u64, h);
+        cfg.factory = FactoryKind::Genie;
+        cfg.psk8 = psk8;
+        cfg.puncturing = pat;
+        cfg.interleaving = il;
+        cfg.workers = 2 + i % 3;
+        // a third of the frames carry a scripted flip: F frame errors ~ 3F frames per point
+        cfg.max_frame_errors = if big { 900 } else { 260 };
+        cfg.max_iterations = 5;
+        cfg.reporter_interval_ns = None;
+        let base = safe_ebn0_db(&cfg);
+        cfg.ebn0s_db = vec![base, base + 1.5];
+        cfg.max_steps = 4_000_000;
+        assert!(!cfg.stage_error() && !cfg.stage_panic());
+        out.push(cfg);
+    }
+    out
+}
+
+#[derive(Default, Clone)]
+struct Acc {
+    n: f64,
+    s1: f64,
+    s2: f64,
+}
+impl Acc {
+    fn add(&mut self, x: f64) {
+        self.n += 1.0;
+        self.s1 += x;
+        self.s2 += x * x;
+    }
+    fn mean(&self) -> f64 {
+        self.s1 / self.n
+    }
+    fn var(&self) -> f64 {
+        self.s2 / self.n - self.mean() * self.mean()
+    }
+}
+
+#[derive(Default, Clone)]
+struct Corr {
+    n: f64,
+    sxy: f64,
+    sxx: f64,
+    syy: f64,
+}
+impl Corr {
+    fn add(&mut self, x: f64, y: f64) {
+        self.n += 1.0;
+        self.sxy += x * y;
+        self.sxx += x * x;
+        self.syy += y * y;
+    }
+    fn r(&self) -> f64 {
+        self.sxy / (self.sxx * self.syy).sqrt()
+    }
+}
+
+pub fn check_noise(cfg: &BerCfg, obs: &BerObs, label: &str) -> (Vec<Violation>, serde_json::Value) {
+    let mut v = Vec::new();
+    let mut report = Vec::new();
+    for (e, &ebn0) in cfg.ebn0s_db.iter().enumerate() {
+        let sigma = expected_sigma(cfg, ebn0);
+        let mut all = Acc::default();
+        let mut re = Acc::default();
+        let mut im = Acc::default();
+        let mut reim = Corr::default();
+        let mut lag1 = Corr::default();
+        let mut cross_worker = Corr::default();
+        let mut cross_frame = Corr::default();
+        let (mut amp_num, mut amp_den) = (0.0, 0.0);
+        let mut max_res: f64 = 0.0;
+        // frames of this point, by worker
+        let mut by_worker: std::collections::BTreeMap<usize, Vec<Vec<f64>>> = Default::default();
+        for (pe, w, _j, llrs) in obs.llrs.iter().filter(|x| x.0 == e) {
+            let _ = pe;
+            let Some((c, _)) = complete_codeword(cfg, llrs) else { continue };
+            let fnz = frame_noise(cfg, sigma, llrs, &c);
+            for &x in &fnz.noise {
+                all.add(x);
+            }
+            for &(a, b) in &fnz.pairs {
+                re.add(a);
+                im.add(b);
+                reim.add(a, b);
+            }
+            // lag-1 between consecutive symbols (same dimension)
+            if cfg.psk8 {
+                for wnd in fnz.pairs.windows(2) {
+                    lag1.add(wnd[0].0, wnd[1].0);
+                }
+            } else {
+                for wnd in fnz.noise.windows(2) {
+                    lag1.add(wnd[0], wnd[1]);
+                }
+            }
+            amp_num += fnz.amp_num;
+            amp_den += fnz.amp_den;
+            max_res = max_res.max(fnz.max_residual);
+            by_worker.entry(*w).or_default().push(fnz.noise);
+        }
+        // same index, consecutive frames of one worker; same index and frame number, two workers
+        for frames in by_worker.values() {
+            for pair in frames.windows(2) {
+                for (a, b) in pair[0].iter().zip(pair[1].iter()) {
+                    cross_frame.add(*a, *b);
+                }
+            }
+        }
+        let ws: Vec<&Vec<Vec<f64>>> = by_worker.values().collect();
+        if ws.len() >= 2 {
+            for (fa, fb) in ws[0].iter().zip(ws[1].iter()) {
+                for (a, b) in fa.iter().zip(fb.iter()) {
+                    cross_worker.add(*a, *b);
+                }
+            }
+        }
+        let n = all.n;
+        if n < 5000.0 {
+            v.push(Violation::new("calibration-size", format!("{} point {}: only {} noise samples", label, e, n)));
+            continue;
+        }
+        let s2 = sigma * sigma;
+        let tol_var = 7.0 * (2.0 / n).sqrt();
+        let tol_mean = 7.0 * sigma / n.sqrt();
+        let mut flag = |what: &str, got: f64, want: f64, tol: f64| {
+            if !((got - want).abs() <= tol) {
+                v.push(Violation::new(
+                    "noise",
+                    format!("{} point {} (Eb/N0 {} dB, expected sigma {:.6}): {} = {:.6e}, expected {:.6e} +- {:.2e} (N = {})", label, e, ebn0, sigma, what, got, want, tol, n),
+                ));
+            }
+        };
+        flag("noise mean", all.mean(), 0.0, tol_mean);
+        flag("noise variance / sigma^2", all.var() / s2, 1.0, tol_var);
+        if cfg.psk8 {
+            let tol2 = 7.0 * (2.0 / re.n).sqrt();
+            flag("real-part variance / sigma^2", re.var() / s2, 1.0, tol2);
+            flag("imaginary-part variance / sigma^2", im.var() / s2, 1.0, tol2);
+            flag("re/im correlation", reim.r(), 0.0, 7.0 / reim.n.sqrt());
+        }
+        flag("lag-1 correlation", lag1.r(), 0.0, 7.0 / lag1.n.sqrt());
+        if cross_frame.n > 1000.0 {
+            flag("same-index correlation between consecutive frames", cross_frame.r(), 0.0, 7.0 / cross_frame.n.sqrt());
+        }
+        if cross_worker.n > 1000.0 {
+            flag("same-index correlation between two workers", cross_worker.r(), 0.0, 7.0 / cross_worker.n.sqrt());
+        }
+        let amp = amp_num / amp_den;
+        flag("recovered signal amplitude", amp, 1.0, 7.0 * sigma / amp_den.sqrt() + 1e-9);
+        if max_res > 1e-6 {
+            v.push(Violation::new("noise", format!("{} point {}: 8PSK inversion residual {:e}", label, e, max_res)));
+        }
+        report.push(json!({
+            "point": e, "ebn0_db": ebn0, "sigma": sigma, "samples": n,
+            "var_over_sigma2": all.var() / s2, "mean": all.mean(), "lag1": lag1.r(),
+            "re_im_corr": if cfg.psk8 { json!(reim.r()) } else { json!(null) },
+            "cross_worker_corr": if cross_worker.n > 0.0 { json!(cross_worker.r()) } else { json!(null) },
+            "cross_frame_corr": if cross_frame.n > 0.0 { json!(cross_frame.r()) } else { json!(null) },
+            "amplitude": amp,
+        }));
+    }
+    (v, json!({"config": label, "points": report}))
+}
+
+pub fn describe_cal(cfg: &BerCfg) -> String {
+    format!(
+        "{} n_cw={} k={} puncturing={:?} interleaving={:?} workers={}",
+        if cfg.psk8 { "8PSK" } else { "BPSK" },
+        cfg.n_cw(),
+        cfg.k(),
+        cfg.puncturing.as_ref().map(|p| p.iter().map(|&b| if b { '1' } else { '0' }).collect::<String>()),
+        cfg.interleaving,
+        cfg.workers
+    )
+}
+
+pub fn main(opts: &Opts) -> ! {
+    let (n_runs, budget, recheck, big) = match opts.tier {
+        Tier::Quick => ((1500.0 * opts.scale) as u64, 240.0, 5, false),
+        Tier::Thorough => ((60_000.0 * opts.scale) as u64, 2400.0, 2, true),
+    };
+    let oracle = |c: &BerCfg, o: &BerObs| oracle_c12(c, o);
+    let res = run_campaign(opts, "C12", n_runs, recheck, budget, &generate, &oracle);
+    if let Some(m) = &res.determinism_mismatch {
+        harness_error(&format!("determinism re-check failed: {}", m));
+    }
+    if res.counters.get("judged") == 0 {
+        harness_error("C12: no run could be judged");
+    }
+    let (mut violations, known) = triage("C12", opts.seed, &res.failures, &oracle, 3);
+    // calibration
+    let t0 = std::time::Instant::now();
+    let cals = calibration_cfgs(opts.seed, big);
+    let stop = std::sync::atomic::AtomicBool::new(false);
+    let cal_results = par_map(cals.len() as u64, opts.threads, None, &stop, |i| {
+        let cfg = &cals[i as usize];
+        let obs = run_one(cfg);
+        let label = describe_cal(cfg);
+        let (mut v, rep) = check_noise(cfg, &obs, &label);
+        // the structural oracle applies to calibration runs too
+        let (v2, _) = oracle_c12(cfg, &obs);
+        v.extend(v2);
+        if !matches!(obs.outcome.result, RunResult::Done(_)) {
+            v.push(Violation::new("calibration-size", format!("{}: run ended with {}", label, obs.outcome.result.kind())));
+        }
+        (v, rep, obs.llrs.len())
+    });
+    let mut cal_reports = Vec::new();
+    let mut cal_frames = 0usize;
+    for (i, (v, rep, nfr)) in cal_results {
+        cal_reports.push(rep);
+        cal_frames += nfr;
+        if let Some(vio) = v.into_iter().next() {
+            if vio.kind == "calibration-size" {
+                harness_error(&format!("calibration run unusable: {}", vio.detail));
+            }
+            let f = Failure { run: 1_000_000 + i, cfg: cals[i as usize].clone(), violation: vio.clone(), trace: vec![] };
+            // calibration failures are statistical: no minimisation, the configuration replays as is
+            let body = json!({
+                "property": "C12", "engine": "bersim-calibration", "seed": opts.seed, "run": f.run,
+                "config": f.cfg.to_json(), "violation": {"kind": vio.kind, "detail": vio.detail},
+                "replay_verified": false,
+            });
+            let path = write_replay("C12", opts.seed, f.run, &body);
+            violations.push((path, vio.kind, vio.detail));
+        }
+    }
+    let cal_wall = t0.elapsed().as_secs_f64();
+    let mut extra = serde_json::Map::new();
+    extra.insert("runs".into(), json!(res.runs + cals.len() as u64));
+    extra.insert("seeds".into(), json!(res.runs + cals.len() as u64));
+    extra.insert("runs_per_hour".into(), json!((res.runs as f64 / res.wall_s * 3600.0) as u64));
+    extra.insert("sim_time_s".into(), json!(res.sim_time_ns as f64 * 1e-9));
+    extra.insert("steps".into(), json!(res.steps));
+    extra.insert("frames_checked".into(), json!(res.counters.get("frames") + cal_frames as u64));
+    extra.insert("calibration".into(), json!(cal_reports));
+    extra.insert("calibration_wall_s".into(), json!(cal_wall));
+    extra.insert("scheduler_mix".into(), res.counters.group("scheduler_mix"));
+    extra.insert("worker_counts".into(), res.counters.group("workers"));
+    extra.insert("skipped".into(), res.counters.group("skipped"));
+    extra.insert("faults_fired".into(), res.counters.group("faults_fired"));
+    let mut probes = serde_json::Map::new();
+    for (k, v) in &res.counters.0 {
+        if !k.contains('/') && k != "frames" && k != "judged" {
+            probes.insert(k.clone(), json!(v));
+        }
+    }
+    extra.insert("probes".into(), serde_json::Value::Object(probes));
+    extra.insert("distinct_interleavings".into(), json!(res.distinct_interleavings));
+    extra.insert("determinism_rechecks".into(), json!(res.determinism_rechecks));
+    extra.insert("components".into(), json!({
+        "real": ["BerTestBuilder::build", "BerTest::{new,run,do_run,make_worker}", "Worker::{work,simulate}", "Encoder", "Puncturer", "Interleaver", "modulators", "AwgnChannel (rand_distr Normal)", "demodulators"],
+        "stub": ["std::thread / mpsc / Instant (dstsim)", "rand::rng (seeded ChaCha stream per task)", "num_cpus::get", "decoder (genie DecoderFactory)"],
+    }));
+    Evidence {
+        property_id: "C12".into(),
+        tier: opts.tier,
+        seed: opts.seed,
+        level: "exploration",
+        evaluations: res.runs + cals.len() as u64,
+        distinct_nontrivial: res.distinct_configs,
+        rule: "one evaluation = one simulated BER run with the genie decoder observing every frame of every worker; distinct and non-trivial = distinct (code, modulation, puncturing, interleaver, workers, Eb/N0) configurations; plus 6 fixed calibration configurations whose noise statistics are tested at 7 sigma of the estimator".into(),
+        samples: res.samples.clone(),
+        extra,
+        assumptions: vec![
+            "the worker RNG is the simulator's entropy stream (rand::rng stub): a change that stops calling rand::rng() is only visible through the cross-worker / cross-frame correlation tests".into(),
+            "Eb/N0 is chosen so that every sample is >= 9 sigma (+3 dB) from a decision boundary: 'noise aside' is literal".into(),
+            "exact soft values of the demodulators away from the operating points are C14, the permutation law of the interleaver as such is C15".into(),
+        ],
+        wall_s: res.wall_s + cal_wall,
+        violations: violations.len() as u64,
+    }
+    .write();
+    Verdict { property: "C12".into(), violations, known }.finish()
 }
